@@ -176,6 +176,27 @@ def run_one(args):
     res["wall_s"] = round(time.time() - t0, 1)
     return res
 
+def run_patch(args):
+    """seeded mode: apply seeded/<id>/patch.diff in the worker's worktree and run the listed checks from the worker's copy"""
+    w, job = args
+    base = os.path.join(SCR, "w%d" % w)
+    wt = os.path.join(base, "repo"); vf = os.path.join(base, "verif")
+    t0 = time.time()
+    sh("git checkout -q -- .", cwd=wt)
+    rc, out = sh("git apply %s" % job["patch"], cwd=wt)
+    res = {"id": job["id"], "checks": {}, "patch_applies": rc == 0}
+    if rc == 0:
+        for p in job["props"]:
+            rc, out = sh("%s/bin/check %s --tier quick" % (vf, p), cwd=vf, timeout=2400,
+                         env={"VERIF_NPROC": str(NP), "VERIF_REPO": wt})
+            lines = [x for x in out.split("\n") if re.match(r"^(VIOLATION|OK|KNOWN-FINDING)", x)]
+            v = [x for x in lines if x.startswith("VIOLATION")]
+            res["checks"][p] = {"exit": rc, "lines": lines, "detected": bool(v) and rc == 1,
+                                "with_failing_input": bool(v) and not all("no-failing-input-found" in x for x in v)}
+    sh("git checkout -q -- .", cwd=wt)
+    res["wall_s"] = round(time.time() - t0, 1)
+    return res
+
 NP = 4
 def worker(w, q, outq):
     global NP
@@ -183,7 +204,7 @@ def worker(w, q, outq):
     while True:
         m = q.get()
         if m is None: break
-        outq.put(run_one((w, m)))
+        outq.put(run_patch((w, m)) if "patch" in m else run_one((w, m)))
     base = os.path.join(SCR, "w%d" % w)
     sh("git -C %s worktree remove --force %s" % (REPO, os.path.join(base, "repo")))
     shutil.rmtree(base, ignore_errors=True)
@@ -197,6 +218,36 @@ def main():
     out = opt("--out", os.path.join(ROOT, "seeded", "mutation"))
     files = opt("--files", None); files = files.split(",") if files else None
     NP = max(1, 16 // workers)
+    if "--seeded" in a:
+        # re-run every seeded change (property-breaking: its target property; harmless: the properties its meta lists)
+        sd = os.path.join(ROOT, "seeded"); jobs = []
+        only = opt("--only", None)
+        for d in sorted(os.listdir(sd)):
+            if re.match(r"C\d\d-\d+$", d) and (not only or re.match(only, d)):
+                jobs.append({"id": d, "patch": os.path.join(sd, d, "patch.diff"), "props": [d.split("-")[0]]})
+        hd = os.path.join(sd, "harmless")
+        for d in sorted(os.listdir(hd)) if os.path.isdir(hd) and not only else []:
+            mp = os.path.join(hd, d, "meta.json")
+            if os.path.exists(mp):
+                jobs.append({"id": "harmless/" + d, "patch": os.path.join(hd, d, "patch.diff"),
+                             "props": sorted(json.load(open(mp)).get("checks_stay_quiet", {}))})
+        NP = max(1, 16 // workers)
+        q = multiprocessing.Queue(); outq = multiprocessing.Queue()
+        for j in jobs: q.put(j)
+        for _ in range(workers): q.put(None)
+        ps = [multiprocessing.Process(target=worker, args=(w, q, outq)) for w in range(workers)]
+        for p in ps: p.start()
+        alive = workers; allres = {}
+        while alive:
+            r = outq.get()
+            if r is None: alive -= 1; continue
+            allres[r["id"]] = r
+            summ = " ".join("%s:%s" % (k, ("DET" + ("" if v["with_failing_input"] else "(no-input)")) if v["detected"] else ("quiet" if v["exit"] == 0 else "ERR")) for k, v in r["checks"].items())
+            print("%-14s %s  %.0fs" % (r["id"], summ if r["patch_applies"] else "PATCH DOES NOT APPLY", r["wall_s"]), flush=True)
+        for p in ps: p.join()
+        json.dump(allres, open(os.path.join(sd, "rerun-results.json"), "w"), indent=1, sort_keys=True)
+        shutil.rmtree(SCR, ignore_errors=True); sh("git -C %s worktree prune" % REPO)
+        return
     muts = enumerate_mutants(files)
     if "--list" in a:
         from collections import Counter
